@@ -26,7 +26,7 @@ pub fn base_from(a: &mut Args, tag: &str) -> Base<'static> {
         "d" => Base::Double(a.num()),
         "h" => {
             let taken = a.num() != 0;
-            let fd = UnixFd::new(nix::unistd::dup(2).unwrap());
+            let fd = UnixFd::new(rbverif::wirelib::fresh_fd());
             if taken {
                 let r = fd.clone().take_raw_fd().unwrap();
                 let _ = nix::unistd::close(r);
